@@ -349,7 +349,8 @@ class ChoiceGuard:
             return
         arr = np.asarray(p, dtype=float)
         ok = bool(np.all(np.isfinite(arr))) and bool(np.all(arr >= 0)) and abs(float(arr.sum()) - 1.0) < 1e-9
-        lab = "C03:pick-draws-from-a-valid-distribution" if PROP == "C03" else "C05:pick-gets-a-probability-vector"
+        lab = {"C03": "C03:pick-draws-from-a-valid-distribution",
+               "C18": "C18:first-picks-draw-from-a-valid-distribution"}.get(PROP, "C05:pick-gets-a-probability-vector")
         ctx.check(ok, lab, f"{arr}")
 
 
